@@ -246,6 +246,12 @@ class SymEx:
             return d
         if k == 'opt':
             return {'has': UNDEF, 'val': self.undef_value(t[1])}
+        if k in ('str', 'strview'):
+            return ('tokv', ())
+        if k == 'ostream':
+            return {'notation': num(0), 'precision': num(6), 'toks': ('tokv', ())}
+        if k == 'iter':
+            return UNDEF
         raise Unsupported('undef value of %s' % (t,))
 
     # ------------------------------------------------------------ memory
@@ -286,6 +292,8 @@ class SymEx:
             return {k: self.merge_val(c, a[k], b[k]) for k in a}
         if isinstance(a, list):
             return [self.merge_val(c, x, y) for x, y in zip(a, b)]
+        if isinstance(a, tuple) and a and a[0] == 'tokv':
+            return self.merge_tokv(c, a, b)
         if isinstance(a, Ptr) or isinstance(b, Ptr):
             if a == b:
                 return a
@@ -298,6 +306,21 @@ class SymEx:
         if a is None or b is None:
             return a if b is None else b
         return ite(c, a, b)
+
+    def merge_tokv(self, c, a, b):
+        """Guarded token lists: both branches extend a common prefix (strings are only ever appended to)."""
+        if a == b:
+            return a
+        ta, tb = a[1], b[1]
+        n = 0
+        while n < len(ta) and n < len(tb) and ta[n] == tb[n]:
+            n += 1
+        out = list(ta[:n])
+        for g, tok in ta[n:]:
+            out.append((land(c, g), tok))
+        for g, tok in tb[n:]:
+            out.append((land(lnot(c), g), tok))
+        return ('tokv', tuple(out))
 
     def merge(self, c, s1, s2):
         """State equal to s1 where c holds and s2 elsewhere."""
@@ -491,8 +514,8 @@ class SymEx:
             v = e[2]
             if isinstance(v, bool):
                 return TRUE if v else FALSE
-            if self.mode == 'NOISY' and e[1][0] == 'f':
-                return num(self.rnd(Fraction(v), e[1]))
+            if self.mode in ('NOISY', 'LIT') and e[1][0] == 'f':
+                return num(self.rnd(Fraction(v), e[1]))     # the value the literal has in its own type
             return num(v)
         if k in ('var', 'field', 'index', 'pidx', 'deref'):
             p = self.lval(e, env, st)
@@ -521,6 +544,8 @@ class SymEx:
             t = e[1]
             if t[0] == 'f':
                 a = self.tonum(a)
+                if self.mode == 'LIT' and is_num(a):
+                    return num(self.rnd(a[1], t))
                 if self.mode == 'NOISY':
                     if is_num(a):
                         return num(self.rnd(a[1], t))
@@ -580,6 +605,22 @@ class SymEx:
             return v
         if k == 'table':
             return e
+        if k == 'toks':
+            out = []
+            for tok in e[2]:
+                if tok[0] == 'LIT':
+                    if tok[1] != '':
+                        out.append((TRUE, ('LIT', tok[1])))
+                elif tok[0] in ('NUM', 'INT'):
+                    out.append((TRUE, (tok[0], self.tonum(self.ev(tok[1], env, st)))))
+                elif tok[0] == 'ABBR':
+                    out.append((TRUE, ('ABBR', tok[1], self.tonum(self.ev(tok[2], env, st)))))
+                elif tok[0] == 'SUB':
+                    v = self.ev(tok[1], env, st)
+                    out += list(self.as_tokv(v)[1])
+                else:
+                    raise Unsupported('token %s' % tok[0])
+            return ('tokv', tuple(out))
         raise Unsupported('symex expression %s' % k)
 
     def binop(self, e, env, st):
@@ -688,6 +729,8 @@ class SymEx:
             return self.app(name, [self.tonum(a) for a in args])
         if name.startswith('table_') or name.startswith('iter_'):
             return self.table_lib(e, args, st)
+        if name.startswith('os_') or name in ('str_empty', 'setprecision'):
+            return self.str_lib(e, args, st, env)
         raise Unsupported('library function %s in symex' % name)
 
     def table_rows(self, tbl):
@@ -735,6 +778,44 @@ class SymEx:
                 self.need(FALSE, 'lookup hits: end() iterator of %s dereferenced' % nm)
                 return self.fresh('miss')
             return self.item_val(rows[it[1]][1 if name == 'iter_second' else 0])
+        raise Unsupported(name)
+
+    def as_tokv(self, v):
+        if isinstance(v, tuple) and v and v[0] == 'tokv':
+            return v
+        if isinstance(v, tuple) and v and v[0] == 'strv':
+            return ('tokv', ((TRUE, ('LIT', v[1])),) if v[1] != '' else ())
+        raise Unsupported('value is not a string: %r' % (v,))
+
+    def str_lib(self, e, args, st, env):
+        name = e[2]
+        if name == 'str_empty':
+            tv = self.as_tokv(args[0])
+            r = TRUE
+            for g, tok in tv[1]:
+                r = land(r, lnot(g))
+            return r
+        if name == 'setprecision':
+            return ('prec', self.tonum(args[0]))
+        if name in ('os_manip', 'os_prec', 'os_num', 'os_int', 'os_str_put', 'os_str'):
+            p = args[0]
+            if not isinstance(p, Ptr):
+                raise Unsupported('stream pointer')
+            os_ = dict(self.load(st, p))
+            if name == 'os_str':
+                return os_['toks']
+            if name == 'os_manip':
+                os_['notation'] = self.tonum(args[1])
+            elif name == 'os_prec':
+                os_['precision'] = self.tonum(args[1])
+            elif name == 'os_num':
+                os_['toks'] = ('tokv', os_['toks'][1] + ((TRUE, ('NUMF', os_['notation'], os_['precision'], self.tonum(args[1]))),))
+            elif name == 'os_int':
+                os_['toks'] = ('tokv', os_['toks'][1] + ((TRUE, ('INT', self.tonum(args[1]))),))
+            else:
+                os_['toks'] = ('tokv', os_['toks'][1] + self.as_tokv(args[1])[1])
+            self.store(st, p, os_)
+            return p
         raise Unsupported(name)
 
     def app(self, f, args):
